@@ -166,6 +166,30 @@ pub fn with_big_bases(out: &mut Vec<Plan>, label: &str, profile: &Profile, level
         p.id_window = 6;
         out.push(Plan { label: format!("{}@{}", label, name), profile: p, levels, depth, base });
     }
+    // hundreds of RESTING orders per side (one sweep executes more than 64, 128, 256 fills;
+    // counters of events per level / per side / per call pass those thresholds): 300 asks at the
+    // middle price and 300 bids at the lowest, then the alphabet with one volume that sweeps a
+    // whole side and one that stops half-way. Two operations deep.
+    {
+        let (lo, mid) = (profile.prices[0], profile.prices[profile.prices.len() / 2]);
+        if lo < mid {
+            let mut base = Vec::new();
+            for i in 0..300u32 {
+                base.push(lim(false, mid, 1 + i % 2));
+                base.push(lim(true, lo, 1 + (i + 1) % 2));
+            }
+            let mut p = profile.clone();
+            p.name = format!("{}@deep-sides-300", p.name);
+            p.id_window = 2;
+            p.limit_vols = vec![1, 100, 1000];
+            p.market_vols = vec![100, 1000];
+            if !p.modify_vols.is_empty() {
+                p.modify_vols = vec![1000];
+            }
+            p.offgrid_prices = vec![];
+            out.push(Plan { label: format!("{}@300 resting orders per side, sweeps of 100 and 450 fills", label), profile: p, levels, depth: depth.min(2), base });
+        }
+    }
 }
 
 /// A deep, asymmetric ladder: 12 price levels per side around the profile's prices, with
@@ -228,6 +252,12 @@ pub fn with_bases(out: &mut Vec<Plan>, label: &str, profile: &Profile, levels: u
         // base states use separate create, toggles and modify: make sure the profile's model
         // of "what is redundant" is not needed for them (they are applied verbatim)
         p.name = format!("{}@{}", p.name, name);
+        // (from a populated book the interesting placements of reads are within reach: the twin
+        // plan offers "read everything" as an operation)
+        let mut po = p.clone();
+        po.name = format!("{}+observe", po.name);
+        po.observe_op = true;
+        out.push(Plan { label: format!("{}@{} + reading as an operation", label, name), profile: po, levels, depth: depth.max(3), base: base.clone() });
         out.push(Plan {
             label: format!("{}@{}", label, name),
             profile: p,
